@@ -100,7 +100,7 @@ func (m ClientState) Status(
 	if err != nil {
 		return exported.Unknown
 	}
-	if onsState.Timestamp+m.TrustingPeriod < uint64(ctx.BlockTime().Nanosecond()) {
+	if onsState.Timestamp+m.TrustingPeriod < uint64(ctx.BlockTime().Unix()) {
 		return exported.Expired
 	}
 	return exported.Active
